@@ -447,7 +447,8 @@ def unbounded_safe(run):
             try:
                 p = subprocess.run(['apalache-mc', 'check', '--init=IndInit', '--inv=IndInv', '--length=1',
                                     '--out-dir=' + os.path.join(wd, 'out'), mod + '.tla'], cwd=wd, stdout=subprocess.PIPE,
-                                   stderr=subprocess.STDOUT, text=True, timeout=900)
+                                   stderr=subprocess.STDOUT, text=True, timeout=900,
+                                   env=dict(os.environ, JVM_ARGS='-Djava.io.tmpdir=' + wd, TMPDIR=wd))
             except FileNotFoundError:
                 run.assumptions.append('apalache-mc not available: the unbounded inductive check of Shared.Safe was skipped')
                 return
